@@ -192,10 +192,10 @@ def ensure_ocaml(force=False):
         drivers = [f for f in sorted(os.listdir(OCAML)) if f.startswith("driver_") and f.endswith(".ml")]
         for d in drivers:
             exe = os.path.join(OCAML, d[:-3] + ".exe")
-            deps = [os.path.join(OCAML, x) for x in ("model.ml", "zutil.ml", d)]
+            deps = [os.path.join(OCAML, x) for x in ("model.ml", "zutil.ml", "zfns.ml", d)]
             if force or not os.path.exists(exe) or os.path.getmtime(exe) < max(os.path.getmtime(x) for x in deps):
-                rc, so, se = sh("ocamlfind ocamlopt -O3 -w -a -o %s model.mli model.ml zutil.ml %s 2>&1 || "
-                                "ocamlfind ocamlopt -w -a -o %s model.mli model.ml zutil.ml %s"
+                rc, so, se = sh("ocamlfind ocamlopt -O3 -w -a -o %s model.mli model.ml zutil.ml zfns.ml %s 2>&1 || "
+                                "ocamlfind ocamlopt -w -a -o %s model.mli model.ml zutil.ml zfns.ml %s"
                                 % (exe, d, exe, d), cwd=OCAML, timeout=600)
                 if rc != 0:
                     return False, "driver build failed (%s): %s" % (d, (so + se)[-2000:])
